@@ -88,11 +88,19 @@ def timer_worker(a):
             base = 100 * rnd
             late = []
             # clients finished in every possible way before their timer expires
-            for k in range(32):
+            for k in range(36):
                 cid = base + k + 1
                 s.do({"t": "announce", "id": cid, "ip": "10.1.2.%d" % (k + 1), "port": 2000 + k})
-                how = k % 8
-                if how == 0:
+                how = k % 9
+                if how == 8:
+                    # complete and soft-held (query unanswered), then the id is announced again (the old request is replaced); the
+                    # newcomer is withdrawn: the replaced request's timer must be gone with it
+                    for ev in ({"t": "host", "id": cid, "name": "h"}, {"t": "ident", "id": cid, "name": "i"}, {"t": "nick", "id": cid, "name": "n"},
+                               {"t": "userinfo", "id": cid, "user": "u", "real": "r"}):
+                        s.do(ev)
+                    s.do({"t": "announce", "id": cid, "ip": "10.7.7.%d" % (k + 1), "port": 3000 + k})
+                    s.do({"t": "registered" if k % 2 else "disconnect", "id": cid})
+                elif how == 0:
                     s.do({"t": "disconnect", "id": cid})
                 elif how == 1:
                     s.do({"t": "registered", "id": cid})
